@@ -5,7 +5,7 @@
 //           T: copyable element whose k-th assignment throws on demand (op suffix !k)     U: move-only, throwing
 // Every element type counts its instances (live set keyed by address): constructing over a live object, destroying
 // or using a dead one sets a trap flag; elements still alive after the whole pool was destroyed are a leak.
-// A moved-from element shows as 'm', a value-initialised one the caller never wrote as 'f'.
+// A moved-from element shows as 'm', a value-initialised one (never written, or T() asked for by emplace_back()) as '0'.
 // After EVERY step the full observable state of the objects the step may have written is printed: capacity, size,
 // elements via operator[], at() for 0..capacity+1 (and std::get<I>), begin..end, rbegin..rend (and
 // nitro::lang::reverse), data(), front/back; const and non-const overloads must agree ('?' otherwise).
@@ -81,8 +81,7 @@ template <typename E>
 char ch(const E& e)
 {
     alive(&e);
-    if (e.v >= 1 && e.v <= 9) return static_cast<char>('0' + e.v);
-    if (e.v == 0) return 'f';
+    if (e.v >= 0 && e.v <= 9) return static_cast<char>('0' + e.v); // 0 = value-initialised (T()), 1..9 caller values
     if (e.v == -1) return 'm';
     return '?';
 }
@@ -111,7 +110,7 @@ bool parse_op(const std::string& w0, Op& op)
     }
     auto f = vh::split_on(w, ',');
     op.name = f[0];
-    static const char* with_list[] = { "nf", "nl", "la", "ir", "il", "pr" };
+    static const char* with_list[] = { "nf", "nl", "la", "ir", "il", "pr", "irb" };
     bool has_list = false;
     for (auto n : with_list) if (op.name == n) has_list = true;
     std::size_t nnum = f.size() - 1 - (has_list ? 1 : 0);
@@ -135,7 +134,8 @@ bool parse_op(const std::string& w0, Op& op)
            arity("em", 3, false) || arity("eb", 2, false) || arity("in", 2, false) || arity("im", 2, false) || arity("pb", 2, false) ||
            arity("ir", 2, true) || arity("il", 2, true) || arity("pr", 1, true) || arity("po", 1, false) || arity("er", 2, false) ||
            arity("de", 1, false) || arity("ea", 3, false) || arity("ba", 2, false) || arity("ia", 2, false) ||
-           arity("pa", 2, false) || arity("sr", 4, false) || arity("ps", 3, false);
+           arity("pa", 2, false) || arity("sr", 4, false) || arity("ps", 3, false) || arity("ebd", 1, false) ||
+           arity("emd", 2, false) || arity("erb", 2, false) || arity("emb", 3, false) || arity("irb", 2, true);
 }
 
 // call f with an initializer_list of the given (run-time) contents
@@ -301,7 +301,7 @@ struct Interp
     }
     static bool needs_copy(const Op& op)
     {
-        static const char* l[] = { "nf", "nl", "cp", "as", "la", "in", "pb", "ir", "il", "pr", "ea", "ba", "ia", "pa", "sr", "ps" };
+        static const char* l[] = { "nf", "nl", "cp", "as", "la", "in", "pb", "ir", "il", "pr", "ea", "ba", "ia", "pa", "sr", "ps", "irb" };
         for (auto n : l) if (op.name == n) return true;
         return false;
     }
@@ -312,12 +312,13 @@ struct Interp
         for (auto i : uses(op)) if (i >= NPOOL) return true;
         if ((op.name == "nl" || op.name == "la" || op.name == "il") && op.xs.size() > 5) return true;
         if (op.name == "get" && op.a[1] > 5) return true;
+        if ((op.name == "erb" || op.name == "emb" || op.name == "irb") && (op.a[1] < 1 || op.a[1] > 4)) return true;
         return false;
     }
     // begin() + pos is only a valid pointer for pos <= capacity (checked after the moved-from rule)
     bool bad_position(const Op& op)
     {
-        if (op.name == "em" || op.name == "ir" || op.name == "il" || op.name == "er" || op.name == "ea" || op.name == "sr")
+        if (op.name == "em" || op.name == "ir" || op.name == "il" || op.name == "er" || op.name == "ea" || op.name == "sr" || op.name == "emd")
         {
             std::size_t i = op.a[0];
             if (pool[i] && (std::size_t)op.a[1] > pool[i]->capacity()) return true;
@@ -415,6 +416,25 @@ struct Interp
             if (n == "il")
             {
                 with_il<E>(op.xs, [&](std::initializer_list<E>& il) { arm(); v.insert(v.begin() + op.a[1], il); });
+                return ok;
+            }
+        }
+        // no arguments: the new element is T()
+        if (n == "ebd") { arm(); auto r = v.emplace_back(); return r + 1 == v.size() ? ok : "D!ret"; }
+        if (n == "emd") { arm(); v.emplace(v.begin() + op.a[1]); return ok; }
+        // positions before begin() (= end() - d on an empty vector); never formed from a null data pointer
+        if (n == "erb" || n == "emb" || n == "irb")
+        {
+            if (v.data() == nullptr) return "E(null-storage)";
+            auto pos = v.begin() - op.a[1];
+            arm();
+            if (n == "erb") { v.erase(pos); return ok; }
+            if (n == "emb") { v.emplace(pos, static_cast<int>(op.a[2])); return ok; }
+            if constexpr (COPY)
+            {
+                std::vector<E> src;
+                for (int x : op.xs) src.emplace_back(x);
+                v.insert(pos, src.begin(), src.end());
                 return ok;
             }
         }
